@@ -201,11 +201,18 @@ def _check_specific_rule_ignore(line: str, rule_id: str) -> bool:
     return False
 
 
+_BARE_IGNORE_PATTERN = re.compile(
+    r"(?:#|//)\s*(?:thailint|design-lint):\s*ignore(?:\s*$|\s+-\s|\s+#|\s+//)", re.IGNORECASE
+)
+
+
 def _check_specific_rule_in_line(code: str, rule_id: str) -> bool:
     """Check if line's ignore directive matches specific rule."""
     bracket_match = re.search(r"ignore\[([^\]]+)\]", code, re.IGNORECASE)
     if bracket_match:
         return check_bracket_rules(bracket_match.group(1), rule_id)
+    if _BARE_IGNORE_PATTERN.search(code):
+        return True  # bare "ignore" (optionally followed by "- reason") means all rules
     space_match = re.search(r"ignore\s+([^\s#]+(?:\s+[^\s#]+)*)", code, re.IGNORECASE)
     if space_match:
         return check_space_separated_rules(space_match.group(1), rule_id)
